@@ -42,7 +42,7 @@ func (c14) Cases(tier string, seed uint64) []core.Case {
 	n := 120
 	ncfg := 5
 	if tier == "thorough" {
-		n, ncfg = 2400, 11
+		n, ncfg = 6000, 11
 	}
 	r := core.NewRng(core.Mix(seed, 0xC14))
 	var out []core.Case
